@@ -11,6 +11,7 @@ import (
 	"github.com/TheManticoreProject/Manticore/network/smb/smb_v10/dialects"
 	"github.com/TheManticoreProject/Manticore/network/smb/smb_v10/message/commands/andx"
 	"github.com/TheManticoreProject/Manticore/network/smb/smb_v10/message/commands/codes"
+	"github.com/TheManticoreProject/Manticore/network/smb/smb_v10/message/header"
 	"github.com/TheManticoreProject/Manticore/network/smb/smb_v10/types"
 )
 
@@ -147,6 +148,110 @@ func init() {
 		}
 		return "", ""
 	})
+	// header: bytes emitted by Marshal equal the MS-CIFS 2.2.3.1 reference encoding (little-endian slots at
+	// fixed offsets) and Unmarshal of the reference encoding returns the fields: args (header fields)
+	Oracle("c05.header", func(a []Val) (string, string) {
+		slot := func(off int) string {
+			names := []struct {
+				lo, hi int
+				n      string
+			}{{0, 4, "Protocol"}, {4, 5, "Command"}, {5, 9, "Status"}, {9, 10, "Flags"}, {10, 12, "Flags2"}, {12, 14, "PIDHigh"},
+				{14, 22, "SecurityFeatures"}, {22, 24, "Reserved"}, {24, 26, "TID"}, {26, 28, "PIDLow"}, {28, 30, "UID"}, {30, 32, "MID"}}
+			for _, x := range names {
+				if off >= x.lo && off < x.hi {
+					return x.n
+				}
+			}
+			return "length"
+		}
+		ref := cifsHeader(a[0])
+		h := header.NewHeader()
+		hdrSet(h, a[0])
+		b, err := h.Marshal()
+		if err != nil {
+			return "C05/header/marshal-fails", err.Error()
+		}
+		for k := 0; k < len(ref) || k < len(b); k++ {
+			if k >= len(ref) || k >= len(b) || ref[k] != b[k] {
+				return "C05/header/" + slot(k) + "/encoding", fmt.Sprintf("header %s: Marshal gives %x, MS-CIFS 2.2.3.1 says %x (first difference at byte %d)", a[0].String(), b, ref, k)
+			}
+		}
+		h2 := header.NewHeader()
+		if n, err := h2.Unmarshal(exact(ref)); err != nil || n != 32 {
+			return "C05/header/decode", fmt.Sprintf("reference header %x does not decode: n=%d err=%v", ref, n, err)
+		}
+		got := hdrGet(h2)
+		names := []string{"Protocol", "Command", "Status", "Flags", "Flags2", "PIDHigh", "SecurityFeatures", "Reserved", "TID", "PIDLow", "UID", "MID"}
+		for i := range names {
+			if got.L[i].String() != a[0].L[i].String() {
+				return "C05/header/" + names[i] + "/decoding", fmt.Sprintf("reference header %x: %s decodes as %s, encoded %s", ref, names[i], got.L[i].String(), a[0].L[i].String())
+			}
+		}
+		return "", ""
+	})
+	// decode direction of one integer field: args (structure, field index).  The structure's own encoding of a
+	// value with pairwise distinct bytes is decoded again; a field that comes back byte-swapped or cut to a
+	// narrower width is reported (anything else - shifted offsets, rejected encodings - is C04's concern).
+	Oracle("c05.field_decode", func(a []Val) (string, string) {
+		name := a[0].Str()
+		i := int(a[1].Int())
+		x := smbNew(name)
+		fv := cmdFieldValues(x)[i]
+		fname := cmdFieldNames(x)[i]
+		w := int(fv.Type().Size())
+		if fv.Kind() == reflect.Struct {
+			return "", ""
+		}
+		val := map[int]uint64{1: 0xA1, 2: 0xA1B2, 4: 0xA1B2C3D4, 8: 0xA1B2C3D4E5F60718}[w]
+		base := genFieldsMode(NewRng(7), name, 2)
+		f1 := L(base.L...)
+		f1.L[i] = U(val)
+		c := smbNew(name)
+		cmdSet(c, f1)
+		b1, err := c.Marshal()
+		if err != nil {
+			return "", ""
+		}
+		sent := cmdGet(c)
+		if sent.L[i].K != 'n' || sent.L[i].Uint() != val {
+			return "", "" // Marshal derives this field (a count)
+		}
+		y := smbNew(name)
+		ok := func() (ok bool) {
+			defer func() {
+				if recover() != nil {
+					ok = false
+				}
+			}()
+			_, err := y.Unmarshal(exact(b1))
+			return err == nil
+		}()
+		if !ok {
+			return "", ""
+		}
+		got := cmdGet(y).L[i]
+		if got.K != 'n' {
+			return "", ""
+		}
+		g := got.Uint()
+		if g == val {
+			return "", ""
+		}
+		swapped := uint64(0)
+		for k := 0; k < w; k++ {
+			swapped |= ((val >> (8 * uint(k))) & 0xff) << (8 * uint(w-1-k))
+		}
+		if g == swapped {
+			return "C05/" + name + "/" + fname + "/decode-byte-order", fmt.Sprintf("%s.%s = %#x decodes from its own encoding %x as %#x", name, fname, val, b1, g)
+		}
+		for nw := 1; nw < w; nw++ {
+			mask := uint64(1)<<(8*uint(nw)) - 1
+			if g == val&mask || g == (val>>(8*uint(w-nw)))&mask || g == swapped&mask || g == (swapped>>(8*uint(w-nw)))&mask {
+				return "C05/" + name + "/" + fname + "/decode-width", fmt.Sprintf("%s.%s = %#x (%d bytes) decodes from its own encoding %x as %#x: only %d byte(s) read", name, fname, val, w, b1, g, nw)
+			}
+		}
+		return "", ""
+	})
 	Gen("C05", genC05)
 }
 
@@ -161,6 +266,7 @@ func genC05(c *Ctx) {
 			switch fv.Kind() {
 			case reflect.Uint8, reflect.Uint16, reflect.Uint32, reflect.Uint64, reflect.Int16, reflect.Int32:
 				c.Check("c05.field", S(name), I(int64(i)))
+				c.Check("c05.field_decode", S(name), I(int64(i)))
 				nfields++
 			case reflect.Struct:
 				if fv.Type().Name() == "LARGE_INTEGER" {
@@ -177,6 +283,18 @@ func genC05(c *Ctx) {
 		}
 	}
 	c.Note("integer_fields_checked", nfields)
+	// header: one value with pairwise distinct bytes, each field alone against a zero header, random headers
+	c.Check("c05.header", hdrGen(r, true))
+	zero := L(B([]byte{0, 0, 0, 0}), U(0), U(0), U(0), U(0), U(0), B(make([]byte, 8)), U(0), U(0), U(0), U(0), U(0))
+	dist := hdrGen(r, true)
+	for i := range zero.L {
+		one := L(zero.L...)
+		one.L[i] = dist.L[i]
+		c.Check("c05.header", one)
+	}
+	for i := 0; i < c.N(200, 4000); i++ {
+		c.Check("c05.header", hdrGen(r, false))
+	}
 	names := []string{"NT LM 0.12", "LANMAN1.0", "PC NETWORK PROGRAM 1.0", "", "a", "LM1.2X002", "Windows for Workgroups 3.1a"}
 	for n := 0; n <= 8; n++ {
 		for rep := 0; rep < c.N(6, 60); rep++ {
